@@ -19,43 +19,85 @@ fn any_weekday() -> Weekday {
     Weekday::try_from(w).unwrap()
 }
 
-fn apply_body(day_offset: i64) {
+/// `which`: 0 = no weekday offset, 1 = `+Xx`, 2 = `-Xx`; returns (offset applied, date + day offset, result)
+fn apply_any(day_offset: i64, which: u8) -> (WeekDayOffset, NaiveDate, NaiveDate) {
     let target = any_weekday();
-    let wday_offset = match nd::u8() % 3 {
+    let wday_offset = match which {
         0 => WeekDayOffset::None,
         1 => WeekDayOffset::Next(target),
         _ => WeekDayOffset::Prev(target),
     };
     let d = any_date();
     let r = DateOffset { wday_offset, day_offset }.apply(d);
-    let base = d + Duration::days(day_offset);
-    match wday_offset {
-        WeekDayOffset::None => vpost!("C01.date_offset.plain_day_offset_is_date_plus_days", r == base),
-        WeekDayOffset::Next(t) => {
-            let dist = (r - base).num_days();
-            vpost!("C01.date_offset.next_weekday_is_the_first_such_day_not_before", 0 <= dist && dist <= 6 && r.weekday() == t);
-        }
-        WeekDayOffset::Prev(t) => {
-            let dist = (base - r).num_days();
-            vpost!("C01.date_offset.prev_weekday_is_the_last_such_day_not_after", 0 <= dist && dist <= 6 && r.weekday() == t);
-        }
-    }
-    vcover!("date_offset.already_on_target", wday_offset != WeekDayOffset::None && r == base);
-    vcover!("date_offset.six_days", matches!(wday_offset, WeekDayOffset::Next(_)) && (r - base).num_days() == 6);
+    (wday_offset, d + Duration::days(day_offset), r)
 }
 
-//@H tier_C04=thorough props=C01,C04 tier=quick kind=complete cap=1500 domain="day offset 0: all weekday offsets x all dates 1900..9999"
-#[cfg_attr(kani, kani::proof)]
-#[cfg_attr(verif_replay, test)]
-fn date_offset_apply_no_day_offset() {
-    apply_body(0)
+fn plain_body(day_offset: i64) {
+    let (_, base, r) = apply_any(day_offset, 0);
+    vpost!("C01.date_offset.plain_day_offset_is_date_plus_days", r == base);
+    vcover!("date_offset.plain.reachable", true);
 }
 
-//@H props=C01,C04 tier=deep kind=bounded cap=3000 mem=medium bound="|day offset| <= 2" domain="all weekday offsets x all dates 1900..9999"
-#[cfg_attr(kani, kani::proof)]
-#[cfg_attr(verif_replay, test)]
-fn date_offset_apply_small_day_offset() {
+fn next_body(day_offset: i64) {
+    let (w, base, r) = apply_any(day_offset, 1);
+    let dist = (r - base).num_days();
+    vpost!("C01.date_offset.next_weekday_is_the_first_such_day_not_before", 0 <= dist && dist <= 6 && WeekDayOffset::Next(r.weekday()) == w);
+    vcover!("date_offset.next.already_on_target", r == base);
+    vcover!("date_offset.next.six_days", dist == 6);
+}
+
+fn prev_body(day_offset: i64) {
+    let (w, base, r) = apply_any(day_offset, 2);
+    let dist = (base - r).num_days();
+    vpost!("C01.date_offset.prev_weekday_is_the_last_such_day_not_after", 0 <= dist && dist <= 6 && WeekDayOffset::Prev(r.weekday()) == w);
+    vcover!("date_offset.prev.already_on_target", r == base);
+    vcover!("date_offset.prev.six_days_back", dist == 6);
+}
+
+fn small_offset() -> i64 {
     let o = nd::i64();
     nd::assume(-2 <= o && o <= 2);
-    apply_body(o)
+    o
+}
+
+//@H props=C01,C04 tier=quick kind=complete cap=900 domain="day offset 0, no weekday offset: all dates 1900..9999"
+#[cfg_attr(kani, kani::proof)]
+#[cfg_attr(verif_replay, test)]
+fn date_offset_apply_plain() {
+    plain_body(0)
+}
+
+//@H props=C01,C04 tier=quick kind=complete cap=1500 domain="day offset 0, `+Xx` weekday offsets: all target weekdays x all dates 1900..9999"
+#[cfg_attr(kani, kani::proof)]
+#[cfg_attr(verif_replay, test)]
+fn date_offset_apply_next_weekday() {
+    next_body(0)
+}
+
+//@H props=C01,C04 tier=quick kind=complete cap=1500 domain="day offset 0, `-Xx` weekday offsets: all target weekdays x all dates 1900..9999"
+#[cfg_attr(kani, kani::proof)]
+#[cfg_attr(verif_replay, test)]
+fn date_offset_apply_prev_weekday() {
+    prev_body(0)
+}
+
+//@H props=C01,C04 tier=thorough kind=bounded cap=3000 bound="|day offset| <= 2" domain="no weekday offset x all dates 1900..9999"
+#[cfg_attr(kani, kani::proof)]
+#[cfg_attr(verif_replay, test)]
+fn date_offset_apply_small_day_offset_plain() {
+    plain_body(small_offset())
+}
+
+//@H props=C01,C04 tier=thorough kind=bounded cap=3000 bound="|day offset| <= 2" domain="`+Xx` weekday offsets x all dates 1900..9999"
+#[cfg_attr(kani, kani::proof)]
+#[cfg_attr(verif_replay, test)]
+fn date_offset_apply_small_day_offset_next_weekday() {
+    next_body(small_offset())
+}
+
+//@H props=C01,C04 tier=thorough kind=bounded cap=3000 bound="|day offset| <= 2" domain="`-Xx` weekday offsets x all dates 1900..9999"
+#[cfg_attr(kani, kani::proof)]
+#[cfg_attr(verif_replay, test)]
+fn date_offset_apply_small_day_offset_prev_weekday() {
+    prev_body(small_offset())
 }
